@@ -2180,3 +2180,186 @@ def check_history_independence(repo: Repo, rep: Report, rule: str):
         rep.fail(rule, F, "conversion after another conversion in the same process", "the result of converting a document depends on the documents converted before it in the same process: " + diff, svg, svg.func("SVG.topicosvg"))
     else:
         rep.ok(rule, F + " [history]", "schematic document converted alone and after another document (same ids, other view box and paints) in one interpreter with persistent caches: identical results", True)
+
+
+# =========================================================================================== command line
+class _FlagVal(Ext):
+    """The value of a command-line flag: opaque, its truth / comparisons are decided both ways."""
+
+    def __init__(self, name):
+        self.name = name
+
+    def sym_truth(self, it):
+        return it.decide(Cond("flag-set", (self.name,)))
+
+    def sym_eq(self, it, other):
+        if isinstance(other, _FlagVal):
+            return other.name == self.name
+        return it.decide(Cond("flag-equals", (self.name, repr(other))))
+
+    def sym_copy(self):
+        return self
+
+    def __repr__(self):
+        return f"FLAGS.{self.name}"
+
+
+class _Flags(Ext):
+    def sym_getattr(self, it, attr):
+        return _FlagVal(attr)
+
+    def sym_copy(self):
+        return self
+
+
+class _CliSvg(Ext):
+    """What the command line does with the document: a log of the calls made on it."""
+
+    def __init__(self, log, origin):
+        self.log, self.origin = log, origin
+
+    def sym_copy(self):
+        return self
+
+    def sym_truth(self, it):
+        return True
+
+    def sym_getattr(self, it, attr):
+        def call(i, a, k):
+            self.log.append((attr, tuple(a), dict(k)))
+            if attr == "tostring":
+                return "<serialised document>"
+            return self
+        return PyCallable(call)
+
+
+class _Sink(Ext):
+    def __init__(self, log, name):
+        self.log, self.name = log, name
+
+    def sym_enter(self, it):
+        return self
+
+    def sym_exit(self, it):
+        self.log.append(("close", self.name))
+
+    def sym_copy(self):
+        return self
+
+    def sym_getattr(self, it, attr):
+        if attr == "write":
+            return PyCallable(lambda i, a, k: self.log.append(("write", self.name, a[0])))
+        if attr == "read":
+            return PyCallable(lambda i, a, k: "<text read from " + repr(self.name) + ">")
+        if attr == "close":
+            return PyCallable(lambda i, a, k: self.log.append(("close", self.name)))
+        raise Undecided(f"file.{attr}")
+
+
+class _SysMod(Ext):
+    def __init__(self, log):
+        self.log = log
+
+    def sym_getattr(self, it, attr):
+        if attr in ("stdin", "stdout", "stderr"):
+            return _Sink(self.log, attr)
+        if attr == "argv":
+            return ["picosvg", "in.svg"]
+        raise Undecided(f"sys.{attr}")
+
+
+class _AbslMod(Ext):
+    def sym_getattr(self, it, attr):
+        if attr == "flags":
+            return self
+        if attr == "FLAGS":
+            return _Flags()
+        if attr == "app":
+            return self
+        return PyCallable(lambda i, a, k: None)
+
+
+def check_cli(repo: Repo, rep: Report, rules: Dict[str, str]):
+    """The command line entry interpreted with opaque flag values, for an input file and for standard input:
+    rules: 'options' (allow_text / drop_unsupported reach topicosvg under their own names), 'clip' (clip_to_viewbox only under its
+    flag, after the conversion, on the converted document), 'output' (what is written is the serialisation of that document)."""
+    cli = repo["picosvg"]
+    F = "picosvg._run"
+    rep.saw(F)
+    fn = cli.func("_run")
+    from sa.sym import closure_of, explore
+    probs: Dict[str, List[str]] = {k: [] for k in ("options", "clip", "output")}
+    n = 0
+    class _Argv(list):
+        log = None
+
+    for argv in (["picosvg", "in.svg"], ["picosvg"]):
+        cur = [None]
+
+        def fresh(argv=argv, cur=cur):
+            a = _Argv(argv)
+            a.log = cur[0]
+            return ([a], {})
+
+        def setup(it, cur=cur):
+            log = []
+            cur[0] = log
+            if not hasattr(it, "ext_modules"):
+                it.ext_modules = {}
+            it.ext_modules["sys"] = _SysMod(log)
+            it.ext_modules["absl"] = _AbslMod()
+            it._modcache[("picosvg", "FLAGS", None)] = _Flags()
+            it.hooks[("svg", "SVG.parse")] = lambda i, a, k: _CliSvg(log, ("parse", a[-1]))
+            it.hooks[("svg", "SVG.fromstring")] = lambda i, a, k: _CliSvg(log, ("fromstring", a[-1]))
+            it.external["open"] = lambda i, a, k: (log.append(("open", a[0], a[1] if len(a) > 1 else k.get("mode", "r"))) or _Sink(log, a[0]))
+
+        outs = explore(repo, closure_of(repo, "picosvg", "_run"), [], fresh_args=fresh, setup=setup, max_paths=64)
+        for o in outs:
+            log = o.args[0].log if o.args else []
+            n += 1
+            if o.undecided:
+                raise AnalysisError(f"{F}: abstract machine cannot interpret the command line entry: {o.undecided}")
+            if o.raised:
+                probs["output"].append(f"argv={argv}: raises {o.raised}")
+                continue
+            dec = {(c.op, c.args): v for c, v in o.decisions if isinstance(c, Cond)}
+            clip_on = dec.get(("flag-set", ("clip_to_viewbox",)))
+            calls = [e for e in log if e and e[0] in ("topicosvg", "clip_to_viewbox", "tostring")]
+            conv = [e for e in calls if e[0] == "topicosvg"]
+            if len(conv) != 1:
+                probs["options"].append(f"argv={argv}: topicosvg is called {len(conv)} times")
+                continue
+            kw = conv[0][2]
+            for opt in ("allow_text", "drop_unsupported"):
+                v = kw.get(opt)
+                if not (isinstance(v, _FlagVal) and v.name == opt):
+                    probs["options"].append(f"topicosvg receives {opt}={v!r}; the command line flag --{opt} must reach it under its own name")
+            for k_, v in kw.items():
+                if isinstance(v, _FlagVal) and v.name != k_:
+                    probs["options"].append(f"topicosvg option {k_} is fed from the flag --{v.name}")
+            order = [e[0] for e in calls]
+            clips = [e for e in calls if e[0] == "clip_to_viewbox"]
+            if clip_on is True and (len(clips) != 1 or order.index("clip_to_viewbox") < order.index("topicosvg")):
+                probs["clip"].append(f"with --clip_to_viewbox the calls are {order}; clipping must happen once, after the conversion")
+            if clip_on is not True and clips:
+                probs["clip"].append(f"without --clip_to_viewbox the document is clipped all the same (calls {order})")
+            if clip_on is None and not clips and ("flag-set", ("clip_to_viewbox",)) not in dec:
+                pass
+            if not order or order[-1] != "tostring":
+                probs["output"].append(f"argv={argv}: the last thing done with the document is {order[-1:] or 'nothing'}, not its serialisation")
+            written = [e for e in log if e and e[0] == "write"]
+            if ("flag-equals", ("output_file", "'-'")) in dec and dec[("flag-equals", ("output_file", "'-'"))] is False:
+                if not written or written[-1][2] != "<serialised document>":
+                    probs["output"].append("with --output_file the serialised document is not what is written to the file")
+    flag_seen = False
+    for o_ in ():
+        pass
+    for cat, rule in rules.items():
+        if probs.get(cat):
+            u = list(dict.fromkeys(probs[cat]))
+            rep.fail(rule, F, {"options": "flags reach topicosvg", "clip": "clip_to_viewbox under its flag", "output": "output of the command line"}[cat],
+                     f"{len(u)} deviations; first: {u[0]}"[:500], cli, fn)
+        else:
+            rep.ok(rule, F + f" [{cat}]", {"options": f"{n} interpreted runs (file / stdin x flag values): allow_text and drop_unsupported reach topicosvg under their own names, no flag feeds another option",
+                                           "clip": "clip_to_viewbox is applied exactly when its flag is set, once, after the conversion",
+                                           "output": "the serialisation of the converted document is what is printed / written"}[cat], True)
